@@ -215,6 +215,18 @@ def gen_files(ctx, d):
                     data = data[:pos]
             data = bytes(data)
         files.append((w(d, 'n%d.%s' % (k, ext), data), 'noise/mutation'))
+    # MO files whose strings cannot be decoded in the charset their header declares (the ISO-8859-1 retry of Checker.check)
+    from harness import mo_lib
+    k = 0
+    for cs in ['UTF-8', 'ASCII', 'ISO-8859-2', 'EUC-JP', 'utf8', 'KOI8-T', 'VISCII', None, 'nonesuch']:
+        for bad in [b'lis \xff\xfe', b'\xc3', b'caf\xe9', b'\x8e', b'ok']:
+            for be in (False, True):
+                hdr = b'Project-Id-Version: x 1\n' + ((b'Content-Type: text/plain; charset=' + cs.encode() + b'\n') if cs else b'') + b'Language: pl\n'
+                kvs = [(b'', hdr), (b'A fox', bad), (b'ctx\x04B', b'b'), (b'one\x00many', b'x\x00' + bad)]
+                kvs = [kvs[0]] + sorted(kvs[1:])
+                data, _ = mo_lib.serialise(kvs, mo_lib.Layout(be=be), rng)
+                files.append((w(d, 'mu%d.%s' % (k, 'gmo' if k % 5 == 0 else 'mo'), data), 'mo-undecodable'))
+                k += 1
     # MO truncations and word corruptions
     for mo in [f for f in seeds if f.endswith('.mo')][:4]:
         data = open(os.path.join(src, mo), 'rb').read()
